@@ -17,6 +17,7 @@ import (
 	"fmt"
 	"os"
 	"reflect"
+	"runtime/debug"
 	"sort"
 	"strconv"
 	"sync"
@@ -50,6 +51,8 @@ type counters struct {
 	dupDepsDemands, dupImageDemands, dupNoDemand                                                         atomic.Int64
 	missDepsDemands, missImageDemands                                                                    atomic.Int64
 	filtered, layoutSpecs                                                                                atomic.Int64
+	wktDeps, wktImageFiles, threeCommits, dupWKTDemands                                                  atomic.Int64
+	faultSurfaced, faultExact, faultPlantDemands                                                         atomic.Int64
 }
 
 type checker struct {
@@ -61,6 +64,8 @@ type checker struct {
 	// (and `buf dep graph`) rely on that error to terminate, so they are not called on cyclic closures
 	// any more (a Go stack overflow is fatal and would lose the violation already recorded).
 	cycleErrorBroken atomic.Bool
+
+	fstats faultStats
 
 	// record (replay only) collects what was violated
 	recordMu sync.Mutex
@@ -168,14 +173,29 @@ func run(r *evid.Run) {
 	if n, err := strconv.Atoi(os.Getenv("VERIF_BUDGET_S")); err == nil {
 		ck.budget = time.Duration(n) * time.Second
 	}
+	// Image builds allocate a lot on a small live heap; a quarter of the CPU went into the collector.
+	defer debug.SetGCPercent(debug.SetGCPercent(400))
+	// Everything outside family M runs under map seed 0 (when the overlay is built in), so that a dependence
+	// on map iteration order shows up reproducibly and in family M only.
+	setMapSeed(0, true)
+	defer setMapSeed(0, false)
 	if only == "" || only == "graphs" {
-		ck.family("graphs", 0.48, func() { ck.familyGraphs(maxN) })
+		ck.family("graphs", 0.30, func() { ck.familyGraphs(maxN) })
 	}
 	if only == "" || only == "layouts" {
-		ck.family("layouts", 0.58, func() { ck.familyLayouts(min(maxN, 3)) })
+		ck.family("layouts", 0.40, func() { ck.familyLayouts(min(maxN, 3)) })
 	}
 	if only == "" || only == "plants" {
-		ck.family("plants", 0.76, func() { ck.familyPlants(maxN) })
+		ck.family("plants", 0.54, func() { ck.familyPlants(maxN) })
+	}
+	if only == "" || only == "wkt" {
+		ck.family("wkt", 0.66, func() { ck.familyWKT(maxN) })
+	}
+	if only == "" || only == "multi" {
+		ck.family("multi", 0.74, func() { ck.familyMultiCommit() })
+	}
+	if only == "" || only == "faults" {
+		ck.family("faults", 0.82, func() { ck.familyFaults(min(maxN, 3)) })
 	}
 	if only == "" || only == "cli" {
 		ck.family("cli", 1.0, func() { ck.familyCLI(min(maxN, 3)) })
@@ -202,12 +222,23 @@ func run(r *evid.Run) {
 	r.Set("clause_duplicate_path_demands_image", c.dupImageDemands.Load())
 	r.Set("clause_missing_import_demands_deps", c.missDepsDemands.Load())
 	r.Set("clause_missing_import_demands_image", c.missImageDemands.Load())
+	r.Set("clause_dep_only_through_wkt_path_of_provider", c.wktDeps.Load())
+	r.Set("clause_image_with_module_provided_wkt", c.wktImageFiles.Load())
+	r.Set("clause_duplicate_wkt_path_demands_deps", c.dupWKTDemands.Load())
+	r.Set("clause_three_commits_of_one_name", c.threeCommits.Load())
+	r.Set("clause_fault_surfaced_as_error", c.faultSurfaced.Load())
+	r.Set("clause_fault_not_in_the_way_exact_result", c.faultExact.Load())
+	r.Set("clause_fault_on_plant_demands", c.faultPlantDemands.Load())
+	r.Set("map_seed_controlled", mapSeedAvailable())
 	neverExercised(r, map[string]int64{
 		"deps exact": c.depsExact.Load(), "isdirect transitive": c.depsWithTransitive.Load(), "cycle": c.cycleDemanded.Load(),
 		"dag": c.dagExact.Load(), "dag cycle": c.dagCycle.Load(), "local beats pinned": c.precedence.Load(),
 		"newest commit": c.newestCommit.Load(), "images": c.images.Load(), "non-target files": c.imageNonTargetModuleFiles.Load(),
 		"ls-files": c.lsfiles.Load(), "duplicate": c.dupDepsDemands.Load() + c.dupImageDemands.Load(),
 		"missing import": c.missDepsDemands.Load() + c.missImageDemands.Load(),
+		"dep through a module-provided wkt": c.wktDeps.Load(), "image with a module-provided wkt": c.wktImageFiles.Load(),
+		"three commits of one name": c.threeCommits.Load(), "duplicate well-known-type path": c.dupWKTDemands.Load(), "fault surfaced": c.faultSurfaced.Load(),
+		"fault on a plant": c.faultPlantDemands.Load(),
 	})
 }
 
@@ -317,15 +348,18 @@ func (ck *checker) familyLayouts(maxN int) {
 }
 
 // kindVectorN4 keeps the n=4 kind vectors with at most one non-plain node.
-func kindVectorN4(ks []Kind) bool {
+func kindVectorN4(ks []Kind) bool { return atMostOneNonPlain(ks) }
+
+// atMostOneNonPlain: all nodes local unnamed, all local named, or one remote|both node among named ones.
+func atMostOneNonPlain(ks []Kind) bool {
 	cnt := map[Kind]int{}
 	for _, k := range ks {
 		cnt[k]++
 	}
-	if cnt[KLocal] == 4 || cnt[KNamed] == 4 {
+	if cnt[KLocal] == len(ks) || cnt[KNamed] == len(ks) {
 		return true
 	}
-	return cnt[KLocal] == 0 && cnt[KNamed] == 3
+	return cnt[KLocal] == 0 && cnt[KNamed] == len(ks)-1
 }
 
 func hasEdge(g Graph) bool {
@@ -340,13 +374,17 @@ func hasEdge(g Graph) bool {
 }
 
 func (ck *checker) runSpec(ctx context.Context, idx int, s Spec) {
+	ck.runSpecTargets(ctx, idx, s, s.targets())
+}
+
+func (ck *checker) runSpecTargets(ctx context.Context, idx int, s Spec, targets []Target) {
 	r := ck.r
 	b, err := build(ctx, s)
 	if err != nil {
 		r.Incomplete(fmt.Sprintf("harness: cannot build spec %s: %v", s.key(), err))
 		return
 	}
-	for ti, t := range s.targets() {
+	for ti, t := range targets {
 		r.Eval(1)
 		if hasEdge(s.G) {
 			r.Distinct(s.key() + "/" + t.String())
@@ -357,18 +395,27 @@ func (ck *checker) runSpec(ctx context.Context, idx int, s Spec) {
 }
 
 // wantImage bounds the expensive image builds (the ls-files oracle, which is compared against the
-// same reference, runs on every case). Quick: every target for n <= 2; for n = 3 the workspace target
-// and the proto-file target of the lowest-numbered local module. Thorough: every target for n <= 3;
+// same reference, runs on every case). Quick: every target for n <= 2; for n = 3 the kind vectors with at
+// most one non-plain node (all unnamed, all named, one remote|both among named ones; every other vector
+// has its images at n <= 2 and in the thorough tier), there the workspace target and, in the default
+// layout, the proto-file target of the lowest-numbered local module. Thorough: every target for n <= 3;
 // for n = 4 the workspace target of the uniform kind vectors.
 func wantImage(r *evid.Run, s Spec, t Target) bool {
 	if s.G.N <= 2 {
 		return true
 	}
 	if s.G.N == 3 {
+		if s.WKTProv >= 0 {
+			// family W: the workspace target and the proto-file target of the lowest-numbered local module
+			return t.Kind == "all" || (t.Kind == "file" && t.Node == s.locals()[0])
+		}
 		if !r.Quick() {
 			return true
 		}
-		return t.Kind == "all" || (t.Kind == "file" && t.Node == s.locals()[0])
+		if !atMostOneNonPlain(s.Kinds) {
+			return false
+		}
+		return t.Kind == "all" || (s.Layout == "" && t.Kind == "file" && t.Node == s.locals()[0])
 	}
 	if t.Kind != "all" {
 		return false
@@ -425,6 +472,9 @@ func (ck *checker) checkCase(ctx context.Context, b *Built, t Target, withImage 
 	}
 	if s.TwoCommit >= 0 {
 		ck.c.newestCommit.Add(1)
+		if s.distinctAges() >= 3 {
+			ck.c.threeCommits.Add(1)
+		}
 	}
 
 	// --- ModuleDeps of every module of the set
@@ -459,6 +509,9 @@ func (ck *checker) checkCase(ctx context.Context, b *Built, t Target, withImage 
 					ck.c.depsWithTransitive.Add(1)
 					break
 				}
+			}
+			if s.WKTProv >= 0 && s.WKTProv != i && s.G.reach(i)[s.WKTProv] {
+				ck.c.wktDeps.Add(1)
 			}
 			for j, reach := range s.G.reach(i) {
 				if reach && s.G.onCycle(j) {
@@ -530,13 +583,16 @@ func (ck *checker) checkCase(ctx context.Context, b *Built, t Target, withImage 
 		return
 	}
 	ck.c.images.Add(1)
-	targets := map[string]bool{}
+	targets := map[int]bool{}
 	for _, i := range s.targetNodes(t) {
-		targets[fmt.Sprintf("p%d/", i)] = true
+		targets[i] = true
 	}
 	for _, f := range wantImg {
-		if f.Path != wktPath && !targets[f.Path[:len(f.Path)-len("a.proto")]] {
+		if o := s.ownerOf(f.Path); o >= 0 && !targets[o] {
 			ck.c.imageNonTargetModuleFiles.Add(1)
+		}
+		if f.Path == wktProvPath {
+			ck.c.wktImageFiles.Add(1)
 		}
 	}
 	if !reflect.DeepEqual(gotImg, wantImg) {
@@ -636,8 +692,12 @@ func moduleSetSignature(s Spec, got, want []ModObs) string {
 		if k == KBoth && (!m.Local || m.Commit != "") {
 			return "moduleset/precedence/pinned-commit-chosen-over-local-module"
 		}
-		if k == KRemote && i == s.TwoCommit && m.Commit == commitString(commitID(i, true)) {
-			return "moduleset/precedence/older-commit-chosen"
+		if k == KRemote && i == s.TwoCommit && m.Commit != commitString(commitIDAge(i, s.newestPinnedAge())) {
+			for _, a := range s.ages() {
+				if a > s.newestPinnedAge() && m.Commit == commitString(commitIDAge(i, a)) {
+					return "moduleset/precedence/older-commit-chosen"
+				}
+			}
 		}
 	}
 	for i := range want {
